@@ -21,19 +21,19 @@ theorem okB_sound (g : Graph) (h : g.okB = true) : GraphOK g := by
   have lt : ∀ n nd, g.nodes[n]? = some nd → n < g.nodes.length := by
     intro n nd hn
     exact (List.getElem?_eq_some_iff.mp hn).1
-  refine ⟨?_, ?_, ?_⟩
+  refine { topo := ?_, inputsLeaves := ?_, wf := ?_ }
   · intro n nd hn p hp
     have := (h n (lt n nd hn)).1.1
     rw [node_eq_of_getElem? g n nd hn] at this
     simpa using this p hp
-  · intro n nd e hn he
-    have := (h n (lt n nd hn)).1.2
-    rw [node_eq_of_getElem? g n nd hn, he] at this
-    exact this
   · intro n nd hn hu
     have := (h n (lt n nd hn)).2
     rw [node_eq_of_getElem? g n nd hn, hu] at this
     simpa using this
+  · intro n nd e hn he
+    have := (h n (lt n nd hn)).1.2
+    rw [node_eq_of_getElem? g n nd hn, he] at this
+    exact this
 
 /-- `CallOK`, decided over the used inputs -/
 def Graph.callOKB (g : Graph) (env : String → Option Val) : Bool :=
